@@ -12,7 +12,8 @@ LEVEL = "exploration"
 RULE = ("Batches of Hypothesis-generated designs (C01 generator, biased toward bundles feeding several ports of one instance, "
         "no-connects, port references, arrays, pairs, generator-named modules) plus the examples / built-in generator corpus; each "
         "batch is run by S real subprocesses (S=8 quick, 24 thorough) with drawn PYTHONHASHSEED values, a drawn permutation of the "
-        "batch and drawn amounts of unrelated allocation / elaboration before each design. For every design all workers must "
+        "batch and drawn amounts of unrelated allocation / elaboration before each design; every other worker discards and "
+        "garbage-collects each design before the next one is built (so object addresses are re-used), the rest keep all alive. For every design all workers must "
         "report the same SHA-256 of Package.SerializeToString(deterministic=True) and of the spice, spectre and verilog netlist "
         "text (a netlister exception must be the same class everywhere). Non-trivial = design with a bundle / anonymous-bundle "
         "connection, no-connect, port reference, array or pair; distinct by canonical spec hash.")
@@ -72,6 +73,7 @@ def main(tier):
             if bi == 0:
                 items += [{"key": "c%d" % k, "corpus": k} for k in range(len(its))]
                 items += [{"key": "p%d" % k, "pdk_item": k} for k in range(4)]  # PDK-compiled designs (sample, Sky130, GF180, ASAP7)
+            items += [{"key": "ch%d_%d" % (bi, k), "churn": k} for k in range(4)]
             batches.append((items, chunk))
             for w in range(S):
                 order = list(range(len(items)))
@@ -83,7 +85,7 @@ def main(tier):
                         if rnd.random() < 0.3:
                             noise[str(pos)] = {"alloc": rnd.choice([0, 10, 1000, 100000]), "designs": rnd.choice([0, 1, 3]),
                                                "keep": rnd.random() < 0.5}
-                job = {"items": items, "order": order, "noise": noise, "tier": tier}
+                job = {"items": items, "order": order, "noise": noise, "tier": tier, "drop": bool(w) and w % 2 == 1}
                 jf = os.path.join(work, "job_%d_%d.json" % (bi, w)); of = os.path.join(work, "out_%d_%d.json" % (bi, w))
                 json.dump(job, open(jf, "w"))
                 hs = 0 if w == 0 else rnd.randrange(1, 2**32 - 1)
@@ -95,6 +97,7 @@ def main(tier):
             if "__error__" in o:
                 res.harness_error("worker batch %d #%d (hashseed %s) failed: %s" % (bi, w, a[2], o["__error__"]))
                 continue
+            res.notes["anon_bundles_placed_on_reused_addresses"] += o.pop("__stats__", {}).get("reincarnated", 0)
             byb.setdefault(bi, []).append((w, a[2], o))
         for bi, (items, chunk) in enumerate(batches):
             runs = byb.get(bi, [])
@@ -103,8 +106,9 @@ def main(tier):
             for k, it in enumerate(items):
                 key = it["key"]
                 ref = runs[0][2].get(key)
-                feats = list(chunk[k].get("features", [])) if k < len(chunk) else ["corpus"]
-                case = {"spec": it["spec"]} if "spec" in it else {"pdk_item": it["pdk_item"]} if "pdk_item" in it else {"corpus": its[it["corpus"]][0]}
+                feats = list(chunk[k].get("features", [])) if k < len(chunk) else ["churn_design", "anon_bundle"] if "churn" in it else ["corpus"]
+                case = ({"spec": it["spec"]} if "spec" in it else {"pdk_item": it["pdk_item"]} if "pdk_item" in it else
+                        {"churn": it["churn"]} if "churn" in it else {"corpus": its[it["corpus"]][0]})
                 if ref and ref.get("proto", "").startswith(("EXC", "BUILD-EXC")):
                     res.reject(ref["proto"])
                 for w, hs, o in runs[1:]:
@@ -131,6 +135,8 @@ def replay(case):
             items = [{"key": "x", "spec": case["spec"]}]
         elif "pdk_item" in case:
             items = [{"key": "x", "pdk_item": case["pdk_item"]}]
+        elif "churn" in case:
+            items = [{"key": "x", "churn": case["churn"]}] + [{"key": "n%d" % k, "churn": 10 + k} for k in range(6)]
         else:
             names = [nm for nm, _ in corpus.items("thorough")]
             items = [{"key": "x", "corpus": names.index(case["corpus"])}]
@@ -138,7 +144,9 @@ def replay(case):
         outs = []
         for i, hs in enumerate(seeds[:10]):
             jf = os.path.join(work, "j%d.json" % i); of = os.path.join(work, "o%d.json" % i)
-            json.dump({"items": items, "order": [0], "noise": {"0": {"alloc": 1000 * i, "designs": i % 3, "keep": bool(i % 2)}}, "tier": "thorough"}, open(jf, "w"))
+            order = [0] if len(items) == 1 or i == 0 else list(range(1, len(items))) + [0]
+            json.dump({"items": items, "order": order, "drop": bool(i % 2), "tier": "thorough",
+                       "noise": {"0": {"alloc": 1000 * i, "designs": i % 3, "keep": bool(i % 2)}}}, open(jf, "w"))
             o = run_worker((jf, of, hs))
             if "__error__" in o:
                 raise RuntimeError(o["__error__"])
